@@ -5,6 +5,8 @@ Check (C05_complete : forall doc, spec_valid doc = true -> ok_extra_args_nullabl
 Check (C05_complete_extra_default_refuted : exists doc, spec_valid doc = true /\ check_doc doc <> []).
 Check (C05_sound : forall doc, check_doc doc = [] -> unique_names doc = true -> ok_app_arg_unique doc = true ->
                    forall r, rule_ok_impl r doc = true).
+Check (C05_exact : forall doc, wf_doc doc = true ->
+  (check_doc doc = [] <-> (forall r, rule_ok_impl r doc = true) /\ ok_extra_args_nullable doc = true)).
 Check (C05_sound_local : forall doc, check_doc doc = [] ->
   ok_reserved doc = true /\ ok_dup_field doc = true /\ ok_dup_arg doc = true /\ ok_dup_input_field doc = true /\
   ok_dup_enum_value doc = true /\ ok_dup_union_member doc = true /\ ok_input_in_output doc = true /\
@@ -23,6 +25,8 @@ Check (C05_is_subtype_covariant_correct : forall doc a b, check_doc doc = [] -> 
   (is_subtype doc a b = Some true <-> valid_impl_field_type doc a b = true)).
 Check (C05_resolve_rejects_same_kind_dup : forall doc, same_kind_dup doc = true -> resolve_fails doc = true).
 (* the definitions the statements rest on are the ones the correspondence run evaluates *)
+Check (eq_refl : rule_ok_impl = rule_ok_gen false).
+Check (eq_refl : rule_ok = rule_ok_gen true).
 Check (eq_refl : rule_ok_impl RDirectiveArgs = ok_directive_args_lenient).
 Check (eq_refl : rule_ok_impl RDirectiveRecursive = ok_directive_recursive_shallow).
 Check (eq_refl : rule_ok RDirectiveArgs = ok_directive_args).
@@ -30,6 +34,7 @@ Check (eq_refl : rule_ok RDirectiveRecursive = ok_directive_recursive).
 Print Assumptions C05_complete.
 Print Assumptions C05_complete_extra_default_refuted.
 Print Assumptions C05_sound.
+Print Assumptions C05_exact.
 Print Assumptions C05_sound_local.
 Print Assumptions C05_sound_directive_args_int_range_refuted.
 Print Assumptions C05_sound_directive_recursive_nested_refuted.
